@@ -44,34 +44,13 @@ CLAIM_C27 = dict(
               "real TestCoverage.Aggregate / MergeCoverageLines")
 
 
-@register("C27", claim=CLAIM_C27)
-def run_c27(ctx):
-    ctx.rule = ("every tuple of runs (vectors over the 4 line states, length <=3; 2 runs quick / 3 runs thorough; plus 2-file "
-                "runs with optional absence; plus simulated larger inputs) is one initial state of Coverage.tla, aggregated in "
-                "index order by the real TestCoverage.Aggregate; all tuples are enumerated so all orders of each multiset are "
-                "covered; non-trivial = at least two runs report a common file with different vectors; distinct by the tuple")
-    ctx.assumptions = ["'best state' is the maximum of the core.LineCoverage enum order",
-                       "tests are independent: every run carries its own test label (as the code assumes)",
-                       "a file omitted by every run is absent from the result; a file reported with zero lines is present"]
-    if ctx.replay_only is not None:
-        cases = [d["case"] for d in ctx.replay_only]
-    else:
-        vlib.tlc(ctx, "Coverage", "MC_CoverageLemmas_2.cfg" if ctx.quick else "MC_CoverageLemmas_3.cfg", workers=4)
-        cases = []
-        cfgs = ["GEN_Coverage_pairs.cfg", "GEN_Coverage_files2.cfg"]
-        if not ctx.quick:
-            cfgs += ["GEN_Coverage_files3.cfg", "GEN_Coverage_files2len2.cfg", "GEN_Coverage_triples.cfg"]
-        for cfg in cfgs:
-            cases += vlib.tlc(ctx, "Coverage", cfg, workers=8, timeout=1500).cases
-        s = vlib.tlc(ctx, "Coverage", "SIM_Coverage.cfg", workers=1, simulate=5 if ctx.quick else 200, depth=30,
-                     seed=ctx.seed)
-        cases += s.cases
-        ctx.exhaustive = True
-    for i, c in enumerate(cases):
-        c["id"] = i
+def _c27_batch(ctx, st, cases):
+    """replays one batch of cases into the real code and judges it; st carries what must survive between batches"""
+    for c in cases:
+        c["id"] = st["next_id"]
+        st["next_id"] += 1
     obs = vlib.run_vh(ctx, "coverage", [dict(id=c["id"], runs=c["runs"]) for c in cases])
-    by_multiset = {}
-    mutated = 0
+    by_multiset = st["by_multiset"]
     for c in cases:
         o = obs.get(c["id"])
         if o is None:
@@ -88,20 +67,20 @@ def run_c27(ctx):
                          for i in range(len(runs)) for j in range(i) for f in runs[i])
         ctx.count(key, nontrivial=nontrivial,
                   sample=dict(case=dict(runs=c["runs"], expect=c["expect"]), observed=o["once"])
-                  if nontrivial and len(ctx.samples) < 2 or (len(runs) > 2 and nontrivial and len(ctx.samples) < 5) else None)
+                  if nontrivial and (len(ctx.samples) < 2 or (len(runs) > 2 and len(ctx.samples) < 5)) else None)
         detail = dict(case=c, observed=o)
         once, twice = _proj(o["once"]), _proj(o["twice"])
         if once != exp:
             ctx.violation("C27 aggregate %s" % _cov_class(exp, once), detail)
-        for k, st in enumerate(o["steps"]):
+        for k, stp in enumerate(o["steps"]):
             pk = _proj(c["prefix"][k])
-            if _proj(st) != pk and once == exp:
-                ctx.violation("C27 aggregate prefix %s" % _cov_class(pk, _proj(st)), detail)
+            if _proj(stp) != pk and once == exp:
+                ctx.violation("C27 aggregate prefix %s" % _cov_class(pk, _proj(stp)), detail)
                 break
         if twice != once:
             ctx.violation("C27 aggregate not-idempotent", detail)
         if not o["inputs_intact"]:
-            mutated += 1
+            st["mutated"] += 1
         if o["tests"] != len(runs):
             ctx.violation("C27 aggregate per-test-map", detail)
         if len(runs) >= 2:
@@ -114,15 +93,41 @@ def run_c27(ctx):
                 if d["aa"] != runs[0][f]:
                     ctx.violation("C27 merge not-idempotent", detail)
         ms = json.dumps(sorted(json.dumps(r, sort_keys=True) for r in runs))
-        prev = by_multiset.setdefault(ms, (once, detail))
+        prev = by_multiset.setdefault(ms, (once, c["runs"]))
         if prev[0] != once:
-            ctx.violation("C27 aggregate order-dependent", dict(case=c, observed=o, other_order=prev[1]["case"]["runs"],
+            ctx.violation("C27 aggregate order-dependent", dict(case=c, observed=o, other_order=prev[1],
                                                                 other_result=prev[0]))
-    ctx.extra["multisets"] = len(by_multiset)
-    ctx.extra["cases_where_inputs_were_mutated"] = mutated
-    if mutated:
-        ctx.notes.append("Aggregate/Merge wrote through to %d input run objects (not a C27 violation by itself)" % mutated)
-    ctx.traces_validated = len(cases)
+    ctx.traces_validated += len(cases)
+
+
+@register("C27", claim=CLAIM_C27)
+def run_c27(ctx):
+    ctx.rule = ("every tuple of runs (vectors over the 4 line states, length <=3; 2 runs quick / 3 runs thorough; plus 2-file "
+                "runs with optional absence; plus simulated larger inputs) is one initial state of Coverage.tla, aggregated in "
+                "index order by the real TestCoverage.Aggregate; all tuples are enumerated so all orders of each multiset are "
+                "covered; non-trivial = at least two runs report a common file with different vectors; distinct by the tuple")
+    ctx.assumptions = ["'best state' is the maximum of the core.LineCoverage enum order",
+                       "tests are independent: every run carries its own test label (as the code assumes)",
+                       "a file omitted by every run is absent from the result; a file reported with zero lines is present"]
+    st = dict(next_id=0, by_multiset={}, mutated=0)
+    if ctx.replay_only is not None:
+        _c27_batch(ctx, st, [d["case"] for d in ctx.replay_only])
+    else:
+        vlib.tlc(ctx, "Coverage", "MC_CoverageLemmas_2.cfg" if ctx.quick else "MC_CoverageLemmas_3.cfg", workers=4)
+        cfgs = ["GEN_Coverage_pairs.cfg", "GEN_Coverage_files2.cfg"]
+        if not ctx.quick:
+            cfgs += ["GEN_Coverage_files3.cfg", "GEN_Coverage_files2len2.cfg"]
+            cfgs += ["GEN_Coverage_triples_p%d.cfg" % p for p in range(4)]
+        for cfg in cfgs:     # one batch per configuration: the cases of a batch are dropped before the next one
+            _c27_batch(ctx, st, vlib.tlc(ctx, "Coverage", cfg, workers=8, timeout=2400, java_opts=["-Xmx6g"]).cases)
+        _c27_batch(ctx, st, vlib.tlc(ctx, "Coverage", "SIM_Coverage.cfg", workers=1,
+                                     simulate=5 if ctx.quick else 80, depth=30, seed=ctx.seed).cases)
+        ctx.exhaustive = True
+    ctx.extra["multisets"] = len(st["by_multiset"])
+    ctx.extra["cases_where_inputs_were_mutated"] = st["mutated"]
+    if st["mutated"]:
+        ctx.notes.append("Aggregate/Merge wrote through to %d input run objects (not a C27 violation by itself)"
+                         % st["mutated"])
 
 
 # ------------------------------------------------------------------------------------------------ C26
@@ -140,13 +145,17 @@ CLAIM_C26 = dict(
          "one file per attempt; every file is parsed by the real parseTestResults / parseTestOutput (verif export), accumulated "
          "with the real TestSuite.Add / AllSucceeded / BuildTarget.AddTestResults, and the real counters are compared with "
          "the spec's expectation; the final results are also written by the real SerialiseResultsToXML and parsed back, "
-         "and the whole behaviour is additionally rendered as one file with flakyFailure/flakyError/rerunFailure/rerunError.",
+         "and the whole behaviour is additionally rendered as one file with flakyFailure/flakyError/rerunFailure/rerunError. "
+         "A sample of behaviours is also run through the real `plz test` (real doFlakeRun loop).",
     note="Ranges instead of exact counts where the statement leaves room: a case that passed only after a retry may or may not "
          "be counted in 'passed'; a case with both a skip and a pass may be counted either way; error+fail without a pass may be "
          "either; a case listed twice that passed both times may or may not be shown as a flake. `go test -v` cannot express "
-         "'error' (rendered and expected as fail) nor classnames (encoded into the test name). The retry loop itself is "
-         "mirrored by the harness from doFlakeRun (real Add/AllSucceeded calls); `plz test` end to end is not run. A crashed "
-         "attempt that writes no results file is outside the statement (not generated).",
+         "'error' (rendered and expected as fail) nor classnames (encoded into the test name). In-process the retry loop is "
+         "mirrored by the harness from doFlakeRun (real Add/AllSucceeded calls); the real loop is exercised end to end on a "
+         "stratified sample (24 behaviours quick / 150 thorough, XML and go each) by `plz test` on gentest targets with "
+         "flaky=N whose command serves the k-th attempt's file and exit status: attempts made, test_results.xml counts and "
+         "identities, failed-target list and exit status are compared. A crashed attempt that writes no results file is "
+         "outside the statement (not generated).",
     technique="TLA+ spec TestResults.tla model-checked with TLC; TLC-generated behaviours rendered to result files and replayed "
               "into the real parsers and TestSuite counters")
 
@@ -300,7 +309,8 @@ def run_c26(ctx):
                        "counters are checked against ranges where the statement is silent (flaky passes inside 'passed', "
                        "skip+pass mixtures, error+fail mixtures, repeated passes shown as flakes)",
                        "a test exits non-zero iff one of its listed cases failed or errored",
-                       "the retry loop is mirrored by the harness (real Add / AllSucceeded); not driven through plz test"]
+                       "in-process the retry loop is mirrored by the harness (real Add / AllSucceeded); the real doFlakeRun "
+                       "is driven only for the e2e sample"]
     if ctx.replay_only is not None:
         cases = [d["case"] for d in ctx.replay_only]
         e2e_n = len([d for d in ctx.replay_only if d.get("e2e")])
@@ -311,17 +321,24 @@ def run_c26(ctx):
         cases = r.cases
         if not ctx.quick:
             cases += vlib.tlc(ctx, "TestResults", "GEN_TestResults_full.cfg", workers=8, timeout=1200).cases
+            # the recorded flaw at model level: with the code's synthetic-case rule switched on TLC must refute CountsOK
+            k = vlib.tlc(ctx, "TestResults", "MC_TestResults_known.cfg", workers=2, allow_violation=True)
+            ctx.extra["flaw_model_counterexample"] = k.invariant or "none"
+            if k.invariant is None:
+                ctx.notes.append("MC_TestResults_known.cfg no longer yields a counterexample: the flaw constant is stale")
         s = vlib.tlc(ctx, "TestResults", "SIM_TestResults.cfg", workers=1, simulate=3 if ctx.quick else 60, depth=5,
                      seed=ctx.seed)
         cases += s.cases
         ctx.exhaustive = True
     for i, c in enumerate(cases):
         c["id"] = i
-    obs = vlib.run_vh(ctx, "testresults", [dict(id=c["id"], allow=c["allow"], runs=c["runs"], layouts=c["layouts"],
-                                                inline_ok=c["inline_ok"]) for c in cases])
     n_obs = 0
     drift = 0
-    for c in cases:
+    obs = {}
+    for k, c in enumerate(cases):
+        if k % 4000 == 0:       # observations are large: replay in chunks
+            obs = vlib.run_vh(ctx, "testresults", [dict(id=x["id"], allow=x["allow"], runs=x["runs"], layouts=x["layouts"],
+                                                        inline_ok=x["inline_ok"]) for x in cases[k:k + 4000]])
         o = obs.get(c["id"])
         if o is None:
             raise vlib.Infra("no observation for test-results case %d" % c["id"])
